@@ -41,6 +41,11 @@
     * `no_parked_waiter_without_limit` + `SetLimV` witness — the D2b fragment as a transition system (requests parked on
       the hard limit, loads parked on the soft limit, setLimits incl. "unlimited", eviction, broadcasts): nobody stays
       parked at a limit that no longer binds.
+    * `invalidate_walk_complete` + `UnlinkV` witnesses — the shard's bucket list with the invalidate iterator against
+      eviction: when a walk ends every bucket still in the list has been visited (the iterator is moved to the
+      successor before the evicted bucket is unlinked);
+    * `no_parked_waiter_within_limit` + `WaitCmp` witness — loads parked at the soft limit with in-flight bytes: the
+      gate, the trim loop and the wait loop share `withinSoft`; a parked load is never within the soft limit.
   Still not proved: the full "exactly the chunks containing the seconds" statement for `invalidate` (needs sortedness/alignment of bucket chunk
   lists as a trace invariant); both remain checked by the correspondence and the oracle.
   On a tree without fixes/C23-cache2-trim-wakeups-and-double-remove.diff the three decision-site theorems do not
@@ -1617,6 +1622,316 @@ def tlWitness : List LEv := [.setLimits 5 0, .getStart, .setLimits 0 0, .evict 0
 example : TLInv tl0 := by simp [TLInv, tl0]
 example : (tlRun .both tl0 tlWitness).parkedHard = 0 := by decide
 example : (tlRun .elseBroadcast tl0 tlWitness).parkedHard = 1 ∧ (tlRun .elseBroadcast tl0 tlWitness).maxSize = 0 := by decide
+
+
+/-! ## The shard's bucket list and the invalidate iterator against eviction
+
+  `cache2Shard.invalidate` walks the bucket list with `shard.invalidateIter` (the shard lock is released while a bucket
+  is invalidated); the trim goroutine may evict any bucket in between (`removeBucketUnlocked`).  Buckets are their
+  keys; `iter` is the bucket the walk visits next.  `UnlinkV.fixIterFirst` is the code (an iterator pointing at the
+  evicted bucket is moved to its successor BEFORE the bucket is unlinked), `UnlinkV.unlinkFirst` the mutation (seeded
+  change C23-r5-1: `remove` first, which sets `b.next = nil`, so the iterator becomes nil). -/
+
+/-- `bucketL.next(b)` while `b` is linked -/
+def nextOf (b : Nat) : List Nat → Option Nat
+  | [] => none
+  | x :: xs => if x = b then xs.head? else nextOf b xs
+
+inductive UnlinkV | fixIterFirst | unlinkFirst
+deriving DecidableEq, Repr
+
+structure BW where
+  list : List Nat
+  iter : Option Nat
+  visited : List Nat
+deriving DecidableEq, Repr
+
+inductive WEv | next | remove (b : Nat)
+deriving DecidableEq, Repr
+
+/-- `invalidateIteratorStart`: the first bucket is visited, the iterator points at the second -/
+def bwStart : List Nat → BW
+  | [] => ⟨[], none, []⟩
+  | b :: bs => ⟨b :: bs, bs.head?, [b]⟩
+
+def bwStep (v : UnlinkV) (w : BW) : WEv → BW
+  | .next =>
+    match w.iter with
+    | none => w
+    | some b => { w with iter := nextOf b w.list, visited := w.visited ++ [b] }
+  | .remove x =>
+    match v with
+    | .fixIterFirst => { w with iter := if w.iter = some x then nextOf x w.list else w.iter, list := w.list.erase x }
+    | .unlinkFirst => { w with iter := if w.iter = some x then none else w.iter, list := w.list.erase x }
+
+def bwRun (v : UnlinkV) (w : BW) (evs : List WEv) : BW := evs.foldl (bwStep v) w
+
+theorem nextOf_split (b : Nat) (pre post : List Nat) (h : (pre ++ b :: post).Nodup) :
+    nextOf b (pre ++ b :: post) = post.head? := by
+  induction pre with
+  | nil => simp [nextOf]
+  | cons x pre ih =>
+    have hn := List.nodup_cons.mp h
+    have hx : x ≠ b := by
+      intro e; apply hn.1; rw [e]; simp
+    simp only [List.cons_append, nextOf, hx, if_false]
+    exact ih hn.2
+
+/-- invariant of a walk in progress: everything before the iterator has been visited -/
+def BWInv (w : BW) : Prop :=
+  w.list.Nodup ∧ ∃ pre post, w.list = pre ++ post ∧ (∀ b ∈ pre, b ∈ w.visited) ∧ w.iter = post.head?
+
+theorem bwStart_inv (l : List Nat) (h : l.Nodup) : BWInv (bwStart l) := by
+  cases l with
+  | nil => exact ⟨List.nodup_nil, [], [], rfl, (fun _ hb => by cases hb), rfl⟩
+  | cons b bs => exact ⟨h, [b], bs, rfl, (fun x hx => by simpa [bwStart] using hx), rfl⟩
+
+theorem bwStep_inv (w : BW) (ev : WEv) (h : BWInv w) : BWInv (bwStep .fixIterFirst w ev) := by
+  obtain ⟨hn, pre, post, hl, hv, hi⟩ := h
+  cases ev with
+  | next =>
+    simp only [bwStep]
+    cases post with
+    | nil =>
+      simp only [List.head?_nil] at hi
+      simp only [hi]
+      exact ⟨hn, pre, [], hl, hv, hi⟩
+    | cons b post' =>
+      simp only [List.head?_cons] at hi
+      simp only [hi]
+      refine ⟨hn, pre ++ [b], post', by rw [hl]; simp, ?_, ?_⟩
+      · intro x hx
+        simp only [List.mem_append, List.mem_singleton] at hx ⊢
+        rcases hx with hx | hx
+        · exact Or.inl (hv x hx)
+        · exact Or.inr hx
+      · simp only []
+        rw [hl] at hn ⊢
+        exact nextOf_split b pre post' hn
+  | remove x =>
+    simp only [bwStep]
+    refine ⟨hn.erase x, ?_⟩
+    by_cases hx : x ∈ pre
+    · refine ⟨pre.erase x, post, by rw [hl, List.erase_append_left _ hx], fun b hb => hv b (List.mem_of_mem_erase hb), ?_⟩
+      have hne : w.iter ≠ some x := by
+        intro e
+        rw [e] at hi
+        cases post with
+        | nil => simp at hi
+        | cons y post' =>
+          simp only [List.head?_cons, Option.some.injEq] at hi
+          subst hi
+          rw [hl] at hn
+          have := (List.nodup_append.mp hn).2.2 x hx x (by simp)
+          exact this rfl
+      simp only [hne, if_false]
+      exact hi
+    · cases post with
+      | nil =>
+        refine ⟨pre, [], by rw [hl, List.erase_append_right _ hx]; simp, hv, ?_⟩
+        simp only [List.head?_nil] at hi
+        simp [hi]
+      | cons y post' =>
+        simp only [List.head?_cons] at hi
+        by_cases hy : y = x
+        · subst hy
+          refine ⟨pre, post', by rw [hl, List.erase_append_right _ hx]; simp, hv, ?_⟩
+          simp only [hi, if_true]
+          rw [hl] at hn ⊢
+          exact nextOf_split y pre post' hn
+        · refine ⟨pre, y :: post'.erase x, by rw [hl, List.erase_append_right _ hx]; simp [List.erase_cons, hy], hv, ?_⟩
+          have : w.iter ≠ some x := by rw [hi]; simpa using hy
+          simp only [this, if_false, List.head?_cons]
+          exact hi
+
+/-- **invalidate_walk_complete**: whatever buckets are evicted while an invalidation walk is in progress, when the walk
+    ends (iterator nil) every bucket that is still in the shard's list has been visited — no cached bucket is skipped -/
+theorem invalidate_walk_complete (l : List Nat) (hl : l.Nodup) (evs : List WEv)
+    (hend : (bwRun .fixIterFirst (bwStart l) evs).iter = none) :
+    ∀ b ∈ (bwRun .fixIterFirst (bwStart l) evs).list, b ∈ (bwRun .fixIterFirst (bwStart l) evs).visited := by
+  have hrun : ∀ (evs : List WEv) (w : BW), BWInv w → BWInv (bwRun .fixIterFirst w evs) := by
+    intro evs
+    induction evs with
+    | nil => intro w h; exact h
+    | cons ev evs ih => intro w h; exact ih _ (bwStep_inv w ev h)
+  obtain ⟨_, pre, post, e, hv, hi⟩ := hrun evs _ (bwStart_inv l hl)
+  rw [hend] at hi
+  have : post = [] := by cases post with
+    | nil => rfl
+    | cons _ _ => simp at hi
+  intro b hb
+  rw [e, this, List.append_nil] at hb
+  exact hv b hb
+
+/-- three buckets; the walk has visited bucket 1 and its iterator points at bucket 2 when bucket 2 is evicted.
+    The code goes on with bucket 3; under the mutation the walk ends and bucket 3 is never invalidated -/
+example : (bwRun .fixIterFirst (bwStart [1, 2, 3]) [.remove 2, .next]) = ⟨[1, 3], none, [1, 3]⟩ := by decide
+example : (bwRun .unlinkFirst (bwStart [1, 2, 3]) [.remove 2, .next]) = ⟨[1, 3], none, [1]⟩ := by decide
+
+
+/-! ## Loads parked at the soft limit, in-flight bytes, and the three places that compare with the soft limit
+
+  `eff = size + inflight` (effectiveSizeLocked).  Three sites decide "within the soft limit": the gate in
+  `updateInflightApprox` (park only if `eff > soft`), the loop of `reduceMemoryUsage` / the sleep decision of `trim`
+  (stop when `eff <= soft`), and the wait loop of `tryNotExceedMemorySoftLimitInflight`.  In /repo all three agree on
+  `withinSoft eff soft := eff <= soft`.  `WaitCmp.ge` is the mutation of the wait loop alone (`>=`, seeded change
+  C23-r5-2): a load woken when trimming landed exactly on the soft limit goes back to sleep, and so does the trimmer. -/
+
+/-- the shared predicate: the effective size is within the soft limit -/
+def withinSoft (eff soft : Int) : Bool := decide (eff ≤ soft)
+
+inductive WaitCmp | gt | ge
+deriving DecidableEq, Repr
+
+structure TS where
+  size : Int
+  inflight : Int
+  maxSize : Int
+  soft : Int
+  asleep : Bool
+  parked : Nat           -- loads in tryNotExceedMemorySoftLimitInflight
+deriving DecidableEq, Repr
+
+def TS.eff (t : TS) : Int := t.size + t.inflight
+
+/-- loop condition of tryNotExceedMemorySoftLimitInflight -/
+def softWaits (v : WaitCmp) (t : TS) : Bool :=
+  t.maxSize != 0 && (match v with
+    | .gt => !withinSoft t.eff t.soft
+    | .ge => decide (t.eff ≥ t.soft))
+
+def tsBroadcast (v : WaitCmp) (t : TS) : TS := { t with parked := if softWaits v t then t.parked else 0 }
+
+inductive SEv
+  | loadStart              -- NewInflightReq + updateInflightApprox(id, 0)
+  | addBytes (n : Nat)     -- updateInflightApprox(id, n): a running load accounts more bytes
+  | loadFinish (n : Nat)   -- afterInflightLoadFinished of a load holding n bytes (removeReqLocked)
+  | evict (to : Int)       -- busy trim goroutine evicts a bucket, then updateRuntimeInfoUnlocked
+  | decide                 -- busy trim goroutine decides whether to sleep
+deriving DecidableEq, Repr
+
+def tsStep (v : WaitCmp) (t : TS) : SEv → TS
+  | .loadStart =>
+    if decide (0 < t.soft) && !withinSoft t.eff t.soft then           -- the gate
+      let t1 := { t with asleep := false }                               -- trimCond.Signal
+      if softWaits v t1 then { t1 with parked := t1.parked + 1 } else t1
+    else t
+  | .addBytes n => { t with inflight := t.inflight + n }
+  | .loadFinish n =>
+    if decide ((n : Int) ≤ t.inflight) then
+      let t1 := { t with inflight := t.inflight - n }
+      let t2 := if t1.maxSize == 0 || decide (t1.eff ≤ t1.maxSize) then tsBroadcast v t1 else t1
+      if decide (0 < t2.soft) && !withinSoft t2.eff t2.soft then { t2 with asleep := false } else t2
+    else t
+  | .evict to =>
+    if !t.asleep && t.maxSize != 0 && !withinSoft t.eff t.soft && decide (0 ≤ to) && decide (to < t.size) then
+      let t1 := { t with size := to }
+      let t2 := if !withinSoft t1.eff t1.soft then { t1 with asleep := false } else t1
+      if decide (t2.eff ≤ t2.maxSize) || decide (t2.size ≤ 0) then tsBroadcast v t2 else t2
+    else t
+  | .decide =>
+    if t.asleep then t else { t with asleep := t.maxSize == 0 || withinSoft t.eff t.soft || decide (t.size ≤ 0) }
+
+def tsRun (v : WaitCmp) (t : TS) (evs : List SEv) : TS := evs.foldl (tsStep v) t
+
+/-- limits as `setLimits` leaves them, and: a parked load is not within the soft limit -/
+def TSInv (t : TS) : Prop :=
+  (t.maxSize ≠ 0 → 0 ≤ t.soft ∧ t.soft ≤ t.maxSize) ∧ (0 < t.parked → t.maxSize ≠ 0 ∧ withinSoft t.eff t.soft = false)
+
+theorem tsBroadcast_inv (t : TS) (h1 : t.maxSize ≠ 0 → 0 ≤ t.soft ∧ t.soft ≤ t.maxSize) : TSInv (tsBroadcast .gt t) := by
+  refine ⟨h1, fun hp => ?_⟩
+  cases hb : softWaits .gt t with
+  | true =>
+    simp only [softWaits, Bool.and_eq_true, bne_iff_ne, ne_eq, Bool.not_eq_true'] at hb
+    exact ⟨hb.1, hb.2⟩
+  | false => simp [tsBroadcast, hb] at hp
+
+theorem tsStep_inv (t : TS) (ev : SEv) (h : TSInv t) : TSInv (tsStep .gt t ev) := by
+  obtain ⟨h1, h2⟩ := h
+  cases ev with
+  | loadStart =>
+    simp only [tsStep]
+    split
+    · split
+      · rename_i hb
+        simp only [softWaits, Bool.and_eq_true, bne_iff_ne, ne_eq, Bool.not_eq_true'] at hb
+        exact ⟨h1, fun _ => ⟨hb.1, hb.2⟩⟩
+      · exact ⟨h1, h2⟩
+    · exact ⟨h1, h2⟩
+  | addBytes n =>
+    simp only [tsStep]
+    refine ⟨h1, fun hp => ?_⟩
+    obtain ⟨a, b⟩ := h2 hp
+    refine ⟨a, ?_⟩
+    have hb : ¬ (t.size + t.inflight ≤ t.soft) := of_decide_eq_false b
+    exact decide_eq_false (p := t.size + (t.inflight + (n : Int)) ≤ t.soft) (by omega)
+  | loadFinish n =>
+    simp only [tsStep]
+    split
+    · have key : ∀ t2 : TS, TSInv t2 →
+          TSInv (if (decide (0 < t2.soft) && !withinSoft t2.eff t2.soft) = true then { t2 with asleep := false } else t2) := by
+        intro t2 h2'
+        split
+        · exact h2'
+        · exact h2'
+      apply key
+      split
+      · exact tsBroadcast_inv _ h1
+      · rename_i hc
+        simp only [Bool.or_eq_true, beq_iff_eq, decide_eq_true_eq, not_or, Int.not_le] at hc
+        refine ⟨h1, fun hp => ⟨hc.1, ?_⟩⟩
+        have := h1 hc.1
+        simp only [withinSoft, decide_eq_false_iff_not, Int.not_le]
+        omega
+    · exact ⟨h1, h2⟩
+  | evict to =>
+    simp only [tsStep]
+    split
+    · rename_i hc
+      simp only [Bool.and_eq_true, Bool.not_eq_true', bne_iff_ne, ne_eq, decide_eq_true_eq] at hc
+      have hm := hc.1.1.1.2
+      have key : ∀ t2 : TS, t2.maxSize = t.maxSize → t2.soft = t.soft → t2.parked = t.parked →
+          TSInv (if (decide (t2.eff ≤ t2.maxSize) || decide (t2.size ≤ 0)) = true then tsBroadcast .gt t2 else t2) := by
+        intro t2 e1 e2 e3
+        have l1 : t2.maxSize ≠ 0 → 0 ≤ t2.soft ∧ t2.soft ≤ t2.maxSize := by rw [e1, e2]; exact h1
+        split
+        · exact tsBroadcast_inv t2 l1
+        · rename_i hn
+          simp only [Bool.or_eq_true, decide_eq_true_eq, not_or, Int.not_le] at hn
+          refine ⟨l1, fun _ => ⟨by rw [e1]; exact hm, ?_⟩⟩
+          have := l1 (by rw [e1]; exact hm)
+          simp only [withinSoft, decide_eq_false_iff_not, Int.not_le]
+          omega
+      split
+      · exact key _ rfl rfl rfl
+      · exact key _ rfl rfl rfl
+    · exact ⟨h1, h2⟩
+  | decide =>
+    simp only [tsStep]
+    split
+    · exact ⟨h1, h2⟩
+    · exact ⟨h1, h2⟩
+
+/-- **no_parked_waiter_within_limit** (the code as it is): whatever loads start, account bytes and finish and whatever
+    the trim goroutine evicts, a load parked at the soft limit is never within the soft limit — so a broadcast after
+    trimming reached the limit (also exactly) releases it -/
+theorem no_parked_waiter_within_limit (t : TS) (evs : List SEv) (h : TSInv t) :
+    0 < (tsRun .gt t evs).parked → withinSoft (tsRun .gt t evs).eff (tsRun .gt t evs).soft = false := by
+  have hrun : TSInv (tsRun .gt t evs) := by
+    unfold tsRun
+    induction evs generalizing t with
+    | nil => exact h
+    | cons ev evs ih => exact ih _ (tsStep_inv t ev h)
+  exact fun hp => (hrun.2 hp).2
+
+/-- two buckets of 5 and 4 bytes, soft limit 4, hard limit 20: a load starts (over the soft limit: parks), the trim
+    goroutine evicts the 5-byte bucket — the size lands exactly on the soft limit — and decides to sleep.
+    With the code the load has been released; with `>=` in the wait loop it is parked for good while the trimmer sleeps -/
+def ts0 : TS := { size := 9, inflight := 0, maxSize := 20, soft := 4, asleep := false, parked := 0 }
+def tsWitness : List SEv := [.loadStart, .evict 4, .decide]
+example : TSInv ts0 := by simp [TSInv, ts0]
+example : tsRun .gt ts0 tsWitness = { size := 4, inflight := 0, maxSize := 20, soft := 4, asleep := true, parked := 0 } := by decide
+example : tsRun .ge ts0 tsWitness = { size := 4, inflight := 0, maxSize := 20, soft := 4, asleep := true, parked := 1 } := by decide
 
 
 end SH.Props.C23
